@@ -187,9 +187,18 @@ fn _parse_with_lexer_ctx(lexer: &mut Lexer, r: &impl Resolve, ctx: Option<&Conte
         // First backup position
         let pos_bk = lexer.get_pos();
 
-        let second_lexeme = t!(lexer.next());
+        // reaching the end of the input while looking ahead only means that this is not a reference
+        let second_lexeme = match lexer.next() {
+            Ok(lexeme) => lexeme,
+            Err(e) if e.is_eof() => lexer.new_substr(pos_bk..pos_bk),
+            Err(e) => return Err(e),
+        };
         if second_lexeme.is_integer() {
-            let third_lexeme = t!(lexer.next());
+            let third_lexeme = match lexer.next() {
+                Ok(lexeme) => lexeme,
+                Err(e) if e.is_eof() => lexer.new_substr(pos_bk..pos_bk),
+                Err(e) => return Err(e),
+            };
             if third_lexeme.equals(b"R") {
                 // It is indeed a reference to an indirect object
                 check(flags, ParseFlags::REF)?;
